@@ -151,3 +151,28 @@ Theorem C06_assembled_system_translation_invariant :
 Proof. exact chain_translation. Qed.
 Print Assumptions C06_assembled_system_translation_invariant.
 
+
+(* ---- moment coefficient (Real/MomentScaling.v) ---- *)
+From Coq Require Import List.
+From OAS Require Import MomentScaling.
+(* scaling every length by c (mesh, centre of gravity; areas by c^2; forces by c^2, C06_forces_scale_with_length_squared)
+   scales the moments by c^3 and the MAC by c: the moment coefficient is unchanged, for any number of surfaces *)
+Theorem C06_moment_coefficient_invariant_under_length_scaling :
+  forall c s0 ss cg rho v S_tot d,
+    c <> 0 -> ms_Sref s0 <> 0 -> rho <> 0 -> v <> 0 -> S_tot <> 0 -> ms_MAC s0 <> 0 ->
+    moment_CM (map (ms_scale c) (s0 :: ss)) (fun k => c * cg k) rho v (c * c * S_tot) d = moment_CM (s0 :: ss) cg rho v S_tot d.
+Proof. exact CM_length_scaling_invariant. Qed.
+Print Assumptions C06_moment_coefficient_invariant_under_length_scaling.
+
+Theorem C06_MAC_scales_with_length :
+  forall c s, c <> 0 -> ms_Sref s <> 0 -> ms_MAC (ms_scale c s) = c * ms_MAC s.
+Proof. exact MAC_scales. Qed.
+Print Assumptions C06_MAC_scales_with_length.
+
+(* the dimensional moment is linear in a common factor of the panel forces (density, speed squared) *)
+Theorem C06_moment_linear_in_force_scale :
+  forall a ss cg d,
+    moment_M (map (fun s => mkMSurf (ms_npx s) (ms_npy s) (ms_sym s) (ms_bpts s) (ms_widths s) (ms_chords s) (ms_Sref s)
+                                     (fun i j k => a * ms_F s i j k)) ss) cg d = a * moment_M ss cg d.
+Proof. exact M_force_scaling. Qed.
+Print Assumptions C06_moment_linear_in_force_scale.
